@@ -9,7 +9,9 @@ cd "$S/flex"
 # the configured Makefiles carry /repo as absolute build directory: retarget them to the copy
 find . -name Makefile -print0 | xargs -0 sed -i "s|/repo/|$S/flex/|g; s|= /repo\$|= $S/flex|"
 unset POSIXLY_CORRECT
-make -j8 >"$S/build.log" 2>&1 || { tail -30 "$S/build.log"; echo "BUILD FAILED"; exit 1; }
+# src/Makefile's bootstrap comparison (stage2compare) races with the main build under -j:
+# build flex first, then the rest serially
+{ make -C src -j8 flex && make; } >"$S/build.log" 2>&1 || { tail -30 "$S/build.log"; echo "BUILD FAILED"; exit 1; }
 make -C tests clean >/dev/null 2>&1 || true
 make -j16 check >"$S/check.log" 2>&1 || true
 grep -E "^# (TOTAL|PASS|FAIL|XFAIL|XPASS|ERROR|SKIP)" "$S/check.log" | tr '\n' ' '
